@@ -14,6 +14,11 @@ fn pa_of(a: &[u8]) -> Result<BlockHashPositionArray, String> {
 
 /// One ordered pair through every route.
 pub fn check_pair(a: &[u8], b: &[u8]) -> Result<u32, String> {
+    // a panic escaping from the library through any call below is a violation of this case, not a crash
+    guard_case(|| check_pair_unguarded(a, b))
+}
+
+fn check_pair_unguarded(a: &[u8], b: &[u8]) -> Result<u32, String> {
     let exp = refmodel::lcs_distance(a, b);
     let pa = pa_of(a)?;
     let d = guarded(|| pa.edit_distance(b))?;
@@ -36,6 +41,11 @@ pub fn check_pair(a: &[u8], b: &[u8]) -> Result<u32, String> {
 }
 
 fn check_against_row(pa: &BlockHashPositionArray, a: &[u8], b: &[u8]) -> Result<u32, String> {
+    // a panic escaping from the library through any call below is a violation of this case, not a crash
+    guard_case(|| check_against_row_unguarded(pa, a, b))
+}
+
+fn check_against_row_unguarded(pa: &BlockHashPositionArray, a: &[u8], b: &[u8]) -> Result<u32, String> {
     let exp = refmodel::lcs_distance(a, b);
     let d = guarded(|| pa.edit_distance(b))?;
     if d != exp {
